@@ -116,6 +116,22 @@ def gcirc_body(case):
         with judge('gcirc-integer-arrays'):
             check(bool(np.all(np.abs(gi.astype(LD) - refi) <= 1e-6 * refi + floor)), 'gcirc:integer-arrays-wrong-distance',
                   lambda: dict(units=units, got=gi.tolist(), want=[float(v) for v in refi]))
+    if not case['scalar']:
+        # catalogue columns in single precision: the float32 numbers are the points; the distance is never NaN (also with one point exactly on
+        # a pole) and as good as single-precision arithmetic on O(1 rad) coordinates allows (1e-5 relative + 1 arcsec)
+        a4 = a.astype('f4')
+        g4 = np.asarray(call(gcirc, a4[:, 0], a4[:, 1], a4[:, 2], a4[:, 3], units=units), dtype='f8')
+        r4 = a4.astype(LD) if units == 0 else a4.astype(LD) * (PI_LD / 180) * np.array([15 if units == 1 else 1, 1, 15 if units == 1 else 1, 1], dtype=LD)
+        ref4 = vincenty_ld(r4[:, 0], r4[:, 1], r4[:, 2], r4[:, 3])
+        ref4 = ref4 if units == 0 else ref4 * (180 / PI_LD) * 3600
+        with judge('gcirc-float32'):
+            check(g4.shape == (len(a),) and not np.isnan(g4).any(), 'gcirc:nan-for-single-precision-input', lambda: dict(units=units, points=a4.tolist(), got=g4.tolist()))
+            # (towards the antipode the arcsine loses digits: an error of 1e-7 in sin(d/2) is 2e-7 / cos(d/2) in d, at most ~1e-3 rad)
+            ref4_rad = np.asarray(ref4 if units == 0 else ref4 / 3600 * (PI_LD / 180), dtype='f8')
+            slack = np.minimum(2e-3, 1e-6 / np.maximum(np.cos(ref4_rad / 2), 1e-12)) + math.radians(1 / 3600.0)
+            slack = slack if units == 0 else np.degrees(slack) * 3600
+            check(bool(np.all(np.abs(g4.astype(LD) - ref4) <= 1e-5 * ref4 + slack)), 'gcirc:single-precision-input-wrong-distance',
+                  lambda: dict(units=units, got=g4.tolist(), want=[float(v) for v in ref4]))
     if case.get('broadcast') and len(a) > 1:
         # one reference point (scalars) against a vector of points, and a column against a row: ordinary NumPy broadcasting
         one = np.asarray(call(gcirc, float(a[0, 0]), float(a[0, 1]), a[:, 2], a[:, 3], units=units))
@@ -195,7 +211,7 @@ def munu_case(draw):
     mus = [180.0 * (1 + draw(uf)) for _ in range(draw(st.integers(1, 4)))]
     return dict(stripe=stripe, points=pts, mus=mus, grid2d=draw(st.sampled_from([False, False, True])),
                 distance=draw(st.sampled_from([None, None, 0.5, 3.0, 1.0])), rep=draw(st.sampled_from(['spherical', 'spherical', 'cartesian'])),
-                stripe_type=draw(st.sampled_from(['int', 'int', 'uint8', 'int64', 'uint16', 'float'])))
+                stripe_type=draw(st.sampled_from(['int', 'int', 'uint8', 'int64', 'uint16', 'float'])), touch_incl=draw(st.sampled_from([False, False, True])))
 
 
 def unit_radec(ra, dec):
@@ -251,6 +267,16 @@ def munu_body(case):
         icrs = ICRS(ra=P[:, 0].reshape(shp) * u.deg, dec=P[:, 1].reshape(shp) * u.deg, distance=np.full(shp, case['distance']) * u.kpc)
     else:
         icrs = ICRS(ra=P[:, 0].reshape(shp) * u.deg, dec=P[:, 1].reshape(shp) * u.deg)
+    if case.get('touch_incl'):
+        # a caller that asked an earlier frame of this stripe for its inclination and did arithmetic in place on what it got (its own copy):
+        # later frames of the stripe must not be affected
+        try:
+            a_ = SDSSMuNu(stripe=s_arg).incl
+            a_ -= 90.0 * u.deg
+            a_ *= -1.0
+        except Exception:
+            note_label('incl-not-modifiable-in-place')
+        note_label('returned-incl-modified-by-caller')
     mn = call(icrs.transform_to, SDSSMuNu(stripe=s_arg), what='ICRS->SDSSMuNu')
     with judge('forward'):
         check(np.shape(mn.mu) == shp, 'munu:shape-not-kept', lambda: dict(got=np.shape(mn.mu), want=shp))
